@@ -86,6 +86,11 @@ def _arms_through_try(pv, payload, dbb, didx, depth):
         if rpayload is not None and rpayload["k"] == "aggr" and rpayload.get("variant") in ("Ok", "Some") and rpayload["ops"]:
             rbi = rpayload["_at"]
             out.extend(arms(pv, rpayload["ops"][0], rbi[0], rbi[1], depth + 1))
+        elif is_call(term) and term[0] == "call":
+            # an arm that hands on another function's Result (`Some(Array(_)) => arr.into_iter().map(f).collect()`): on the
+            # Continue side its value is that call's Ok payload
+            from .prov import mk_tryok
+            out.append((mk_tryok(pv.prog, term), rbb))
         else:
             return None
     return out or None
@@ -615,7 +620,12 @@ def apply_fn(prog, fterm, args):
         rt = Prov(f).return_term()
         if any(isinstance(s, tuple) and s and s[0] in ("loop", "undef") for s in subterms(rt)):
             return None
-        if rt[0] == "phi":
+        from .prov import is_err_term
+        if rt[0] == "phi" and len([a for a in rt[1] if not is_err_term(prog, a)]) == 1 \
+                and not any(isinstance(s, tuple) and s and s[0] == "phi" for a in rt[1] for s in subterms(a) if s is not a and not is_err_term(prog, a)):
+            # a closure with `?` inside: one way to succeed, the other exits are early error returns - a Result-valued body
+            pass
+        elif rt[0] == "phi":
             # a closure that matches on its argument: every alternative must say which variant it is for (it reads the
             # variant's payload), so the value describes itself without path conditions
             for alt in rt[1]:
